@@ -38,14 +38,14 @@ GraderKinds     == ItemGraderKinds \cup {"grader_list"}
 \* kinds every option is probed with; the remaining ("specific") kinds are probed only where an option lists them
 Generic == {"none"} \cup Bools \cup Ints \cup Floats \cup {"complex"} \cup StrG \cup
            {"list_empty", "list_xy", "list_mixed", "list_int12", "tuple_empty", "tuple_str", "tuple_num",
-            "dict_empty", "dict_int_key", "callable_1", "grader_string", "sampler_real", "matharray"}
+            "dict_empty", "dict_int_key", "callable_1", "grader_string", "sampler_real"}
 Specific == Enums \cup Callables \cup CallableObjs \cup
             {"list_ab", "list_const", "list_fn", "list_none1", "list_int13", "list_float2", "list_num3", "list_num1",
              "list_callable", "list_graders", "list_shapes", "tuple_int1", "tuple_int2", "tuple_int3",
              "dict_fn_f", "dict_fn_sin", "dict_fn_rand", "dict_fn_list", "dict_const_c", "dict_const_x", "dict_const_pi",
              "dict_const_del", "dict_str_str", "dict_sample_x", "dict_range", "dict_asm", "dict_asm_part", "dict_asm_bad",
              "dict_asm_unknown", "dict_quad", "ans_ok", "ans_missing", "ans_extra", "ans_nonstr", "pos_partial", "pos_none",
-             "pos_gap", "pos_repeat", "pos_unknown", "lans_ab", "sampler_discrete", "sampler_fn", "sampler_dependent"}
+             "pos_gap", "pos_repeat", "pos_unknown", "lans_ab", "sampler_discrete", "sampler_fn", "sampler_dependent", "matharray"}
 Kinds == Generic \cup Specific
 
 (* ====================================================================== option descriptors
@@ -125,14 +125,14 @@ NumericalGraderOpts == Ext(FormulaGraderOpts,
 
 MatrixGraderOpts == Ext(FormulaGraderOpts,
      "identity_dim" :> O(IntsPos \cup {"none"}, {"int_zero"}, {}, "None")
-  @@ "max_array_dim" :> TCount0("n:1")
+  @@ "max_array_dim" :> O(IntsNN, {"none"}, {}, "n:1")
   @@ "negative_powers" :> TBool("True") @@ "shape_errors" :> TBool("True")
   @@ "suppress_matrix_messages" :> TBool("False")
   @@ "answer_shape_mismatch" :> O({"dict_asm", "dict_asm_part", "dict_empty"}, {}, {"dict_asm_bad", "dict_asm_unknown"}, "asm:True:type")
   @@ "entry_partial_credit" :> O(F01 \cup {"int_zero", "int_one", "enum_proportional"}, {}, {}, "OPTIONAL")
   @@ "entry_partial_msg" :> TStr("OPTIONAL")
      \* matrix_grader.md: MatrixGrader "does not have" allow_inf; supplying True is refused under every reading
-  @@ "allow_inf" :> O({}, {"bool_false"}, {}, "OPTIONAL"))
+  @@ "allow_inf" :> O({}, {"bool_false", "int_zero", "float_zero"}, {}, "OPTIONAL"))
 
 Delimiter(def) == O({"str_char", "str_comma"}, StrG \ {"str_char", "str_comma"}, {}, def)
 SingleListGraderOpts == Ext(ItemGraderOpts,
@@ -150,7 +150,7 @@ Brackets(def) == O(StrNE, {"str_empty"}, {}, def)
 IntervalGraderOpts == Ext(ItemGraderOpts,
      "opening_brackets" :> Brackets("s:_LSQB_(") @@ "closing_brackets" :> Brackets("s:_RSQB_)")
   @@ "delimiter" :> Delimiter("s:,") @@ "partial_credit" :> TBool("True")
-  @@ "subgrader" :> O({"grader_formula", "grader_numerical"}, {"grader_matrix"}, {"grader_single", "grader_list"}, "interval_subgrader"))
+  @@ "subgrader" :> O({"grader_formula", "grader_numerical"}, {"grader_matrix", "none"}, {"grader_single", "grader_list"}, "interval_subgrader"))
 
 Positions(def) == O({"pos_partial", "pos_none"}, {"dict_empty"}, {"pos_gap", "pos_repeat", "pos_unknown"}, def)
 SummationAnswers == O({"ans_ok"}, {}, {"ans_missing", "ans_extra", "ans_nonstr"}, "REQUIRED")
@@ -171,10 +171,10 @@ Num == Ints \cup Floats
 \* "_value": the configuration given positionally instead of as options
 RealIntervalOpts ==
      "start" :> O(Num, {}, {}, "n:1") @@ "stop" :> O(Num, {}, {}, "n:5")
-  @@ "_value" :> O({"list_int12", "list_float2"}, {}, {"list_num3", "list_num1"}, "OPTIONAL")
+  @@ "_value" :> O({"list_int12", "list_float2"}, {"dict_empty", "none"}, {"list_num3", "list_num1"}, "OPTIONAL")
 IntegerRangeOpts ==
      "start" :> O(Ints, {}, {}, "n:1") @@ "stop" :> O(Ints, {}, {}, "n:5")
-  @@ "_value" :> O({"list_int12"}, {}, {"list_float2", "list_num3", "list_num1"}, "OPTIONAL")
+  @@ "_value" :> O({"list_int12"}, {"dict_empty", "none"}, {"list_float2", "list_num3", "list_num1"}, "OPTIONAL")
 ComplexRectangleOpts == "re" :> TRange("range:1:3") @@ "im" :> TRange("range:1:3")
 ComplexSectorOpts == "modulus" :> TRange("range:1:3") @@ "argument" :> TRange("range:0:1.5708")
 DiscreteSetOpts ==
@@ -183,17 +183,19 @@ SpecificFunctionsOpts ==
      "_value" :> O({"callable_1", "callable_3", "list_callable"}, CallableObjs, {}, "REQUIRED")
 RandomFunctionOpts ==
      "input_dim" :> TCount1("n:1") @@ "output_dim" :> TCount1("n:1") @@ "num_terms" :> TCount1("n:3")
-  @@ "center" :> O(Num, {}, {}, "n:0")
+  @@ "center" :> O(Num, {"complex"}, {}, "n:0")
   @@ "amplitude" :> O(IntsPos \cup FPos, {"int_zero", "int_neg", "float_zero", "float_neg"}, {}, "n:10")
   @@ "complex" :> TBool("False")
 DependentSamplerOpts ==
-     "depends" :> O({"list_empty", "list_xy"}, {}, {}, "NOCHECK")
+     "depends" :> O({"list_empty", "list_xy"}, {"none"}, {}, "NOCHECK")
   @@ "formula" :> O({"str", "pct_ok", "pct_neg"}, {"str_empty", "str_char", "str_comma"}, {}, "REQUIRED")
 
 ShapeVec == O(IntsPos \cup {"tuple_int1", "list_num1"}, {}, {"tuple_int2", "tuple_int3", "list_num3"}, "shape:3")
 ShapeMat == O({"tuple_int2", "list_int12"}, {}, {"tuple_int1", "tuple_int3", "list_num1", "list_num3"}, "shape:2,2")
 ShapeTen == O({"tuple_int3", "list_num3"}, {}, {"tuple_int1", "tuple_int2", "list_num1"}, "REQUIRED")
-Always(b, other) == O({b}, {other}, {}, IF b = "bool_true" THEN "True" ELSE "False")
+\* "complex is always True / False": the fixed value is in; the other boolean and numbers equal to the fixed one are undecided
+Always(b, other) == O({b}, {other} \cup (IF b = "bool_true" THEN {"int_one", "float_one"} ELSE {"int_zero", "float_zero"}), {},
+                      IF b = "bool_true" THEN "True" ELSE "False")
 ArrayBase == "norm" :> TRangeD("range:1:5") @@ "complex" :> TBool("False")
 RealVectorsOpts    == Ext(ArrayBase, "shape" :> ShapeVec @@ "complex" :> Always("bool_false", "bool_true"))
 ComplexVectorsOpts == Ext(ArrayBase, "shape" :> ShapeVec @@ "complex" :> Always("bool_true", "bool_false"))
@@ -222,7 +224,8 @@ MatrixEntryComparerOpts ==
   @@ "entry_partial_credit" :> O(F01 \cup {"int_zero", "int_one", "enum_proportional"}, {}, {}, "n:0")
   @@ "entry_partial_msg" :> TStr("s:Some array entries are incorrect, marked below:_NL__LCUB_error_locations_RCUB_")
 \* docstring: (None | number) / (str), default ''; comparer_functions.md: equals=float, messages (None | str) default None
-Credit01(def, noneOK) == O(IF noneOK THEN F01 \cup {"none"} ELSE F01, Ints \cup {"float_neg", "float_gt1"}, {}, def)
+Credit01(def, noneOK) == O(IF noneOK THEN F01 \cup {"none"} ELSE F01,
+                           Ints \cup {"float_neg", "float_gt1"} \cup (IF noneOK THEN {} ELSE {"none"}), {}, def)
 LinearComparerOpts ==
      "equals" :> Credit01("n:1", FALSE) @@ "proportional" :> Credit01("n:0.5", TRUE)
   @@ "offset" :> Credit01("None", TRUE) @@ "linear" :> Credit01("None", TRUE)
@@ -294,12 +297,11 @@ Base ==
        [] cls = "SpecifyDomain" -> ("input_shapes" :> "list_num1")
        [] OTHER -> [k \in {} |-> "none"]]
 
-\* general classification policies for values Python's type lattice makes debatable
+\* general classification policies for values Python's type lattice makes debatable (None is out of domain wherever the
+\* documentation does not mention it, except for the five options that list it under skip)
 PolicySkip(o, k) ==
-  \/ k = "none"                                                           \* None where the documentation does not mention it
   \/ k \in Bools /\ o.in \cap (Ints \cup Floats) # {}                     \* bool where a number is documented
   \/ k \in Ints /\ o.in \cap Floats # {} /\ o.in \cap Ints = {}           \* int where a float is documented
-  \/ k = "complex" /\ o.in \cap (Ints \cup Floats) # {}                   \* complex where a number is documented
 
 \* options whose values are judged structurally (answers formats: the Canon operators and LGExpect below), not by kind
 Structural(cls) == IF cls \in {"StringGrader", "FormulaGrader", "NumericalGrader", "MatrixGrader", "SingleListGrader",
@@ -376,9 +378,18 @@ Expect(cls, cfg) ==
 Accepts(cls, cfg) == Expect(cls, cfg) = "accept"
 
 \* documented default of every omitted option, as <<option, token>> pairs
+\* SquareMatrices docstring: "If 'hermitian' or 'antihermitian' are chosen, 'complex' is set to True"
+\* RealInterval / IntegerRange: start is "the lower end", stop "the upper end"; nothing is said about start > stop, so the
+\* default of the omitted end is not checked when the supplied end lies beyond it
+DefaultToken(cls, cfg, opt) ==
+  IF cls = "SquareMatrices" /\ opt = "complex" /\ Get(cfg, "symmetry") \in {"enum_hermitian", "enum_antihermitian"} THEN "True"
+  ELSE IF cls \in {"RealInterval", "IntegerRange"} /\ opt = "start"
+          /\ Get(cfg, "stop") \in {"int_zero", "int_neg", "float_neg", "float_zero", "float_frac"} THEN "NOCHECK"
+  ELSE IF cls \in {"RealInterval", "IntegerRange"} /\ opt = "stop" /\ Get(cfg, "start") = "int_pos" THEN "NOCHECK"
+  ELSE Options[cls][opt].def
 DefaultsOf(cls, cfg) ==
   IF "_value" \in DOMAIN cfg THEN {}
-  ELSE {<<opt, Options[cls][opt].def>> : opt \in (DOMAIN Options[cls] \ DOMAIN cfg) \ {"_value"}}
+  ELSE {<<opt, DefaultToken(cls, cfg, opt)>> : opt \in (DOMAIN Options[cls] \ DOMAIN cfg) \ {"_value"}}
 
 (* ====================================================================== answers of item graders
    An answer ITEM is  [form, expect, etup, grade, msg, ok, extra]:
@@ -411,6 +422,30 @@ CanonAnswers(a) == [i \in 1..Len(a.items) |-> CanonItem(a.items[i])]
 AsItem(c) == [form |-> "dict", expect |-> c.expect, etup |-> TRUE, grade |-> c.grade, msg |-> c.msg, ok |-> c.ok, extra |-> FALSE]
 AsAnswers(cs) == [tup |-> TRUE, items |-> [i \in 1..Len(cs) |-> AsItem(cs[i])]]
 
+(* ====================================================================== answers of list graders
+   An ALTERNATIVE is [form ("list" | "string" | "dict"), entries (sequence of answers values of the subgrader), grade, msg]:
+   a Python list of entries, the delimited string of them (SingleListGrader only), or {'expect': list, grade_decimal, msg}.
+   List answers: [bare (one alternative, not wrapped in a tuple), alts (sequence of alternatives)].
+   ListGrader accepts a list or a tuple of lists only; SingleListGrader every form of the ItemGrader scheme. *)
+AltExpect(cls, alt) ==
+  LET vs == {AnswersExpect(alt.entries[i]) : i \in 1..Len(alt.entries)} IN
+  IF cls = "ListGrader" /\ alt.form # "list" THEN "reject"
+  ELSE IF "reject" \in vs \/ alt.grade \notin GradeIn \/ alt.msg \notin MsgIn THEN "reject"
+  ELSE IF "skip" \in vs \/ Len(alt.entries) = 0 \/ (cls = "ListGrader" /\ Len(alt.entries) = 1) THEN "skip"
+  ELSE "accept"
+ListAnswersExpect(cls, la) ==
+  LET vs == {AltExpect(cls, la.alts[i]) : i \in 1..Len(la.alts)}
+      lens == {Len(la.alts[i].entries) : i \in 1..Len(la.alts)} IN
+  IF "reject" \in vs THEN "reject"
+  ELSE IF "skip" \in vs \/ Cardinality(lens) > 1 THEN "skip"        \* alternatives of different lengths: not decided
+  ELSE "accept"
+CanonAlt(cls, alt) ==
+  LET es == [i \in 1..Len(alt.entries) |-> CanonAnswers(alt.entries[i])]
+      g == IF alt.grade = "absent" THEN "g1" ELSE alt.grade IN
+  IF cls = "ListGrader" THEN es
+  ELSE [expect |-> <<es>>, grade |-> g, msg |-> IF alt.msg = "absent" THEN "m_empty" ELSE alt.msg, ok |-> GradeToOk(g)]
+CanonListAnswers(cls, la) == [i \in 1..Len(la.alts) |-> CanonAlt(cls, la.alts[i])]
+
 (* ====================================================================== ListGrader groupings
    case: [ordered, subs (sequence of subgrader kinds "item" | "list"), one (TRUE: a single subgrader subs[1], not a list),
           grouping (sequence of positive integers, <<>> when not given), nans (number of answers in each answer list),
@@ -426,7 +461,7 @@ LGExpect(c) ==
       sizes == {GroupSize(c.grouping, g) : g \in G}
   IN
   IF c.nans = 1 THEN "skip"                                    \* "does not work with a single answer": not documented
-  ELSE IF c.nans = 0 THEN (IF c.one /\ c.grouping = <<>> THEN "accept" ELSE "skip")
+  ELSE IF c.nans = 0 THEN (IF c.one /\ c.grouping = <<>> /\ c.ntup = 0 THEN "accept" ELSE "skip")   \* answers = []
   ELSE IF ~c.one /\ Len(c.subs) # c.nans THEN "reject"         \* as many answers as subgraders
   ELSE IF ~c.one /\ ~c.ordered THEN "reject"                   \* unordered only with a single subgrader
   ELSE IF c.grouping = <<>> THEN "accept"
